@@ -244,6 +244,97 @@ def monitor(d, ob, facts, sc, res):
     return out
 
 
+# ------------------------------------------------------------------ replay of real event logs through Sem2 (validation of the semantics)
+
+def trace_labels(d, ob, res):
+    """event log of one real execution -> label sequence of Sem2 on the observed program; None when the log cannot be
+    expressed (context-reactive provider failures are outside the model's error vocabulary)"""
+    if any(e["kind"] in ("ctxfail", "gate-timeout") for e in res["events"]):
+        return None
+    threads = [ob["main"]] + ob["gos"]
+    nprov = len(d["provs"])
+    def silent(it):
+        return it["pi"] >= nprov or d["provs"][it["pi"]]["kind"] == "value"
+    where = {}
+    for t, th in enumerate(threads):
+        for j, it in enumerate(th):
+            if not silent(it):
+                where[d["provs"][it["pi"]]["fn"]] = (t, j)
+    pos = [0] * len(threads)
+    dead = [False] * len(threads)
+    labels = []
+    def run_silent(t, upto):
+        while pos[t] < upto and pos[t] < len(threads[t]) and silent(threads[t][pos[t]]):
+            it = threads[t][pos[t]]
+            labels.extend(["LWaitPass %d" % t] * len(it["waits"]) + ["LEnter %d" % t, "LExitOk %d" % t] + ["LClose %d" % t] * len(it["closes"]) + ["LNext %d" % t])
+            pos[t] += 1
+    for e in res["events"]:
+        k = e["kind"]
+        if k == "cancel":
+            labels.append("LCancel")
+        elif k in ("enter", "exit", "fail"):
+            if e["fn"] not in where:
+                return None
+            t, j = where[e["fn"]]
+            it = threads[t][j]
+            if k == "enter":
+                run_silent(t, j)
+                labels.extend(["LWaitPass %d" % t] * len(it["waits"]) + ["LEnter %d" % t])
+            elif k == "exit":
+                labels.extend(["LExitOk %d" % t] + ["LClose %d" % t] * len(it["closes"]) + ["LNext %d" % t])
+                pos[t] = j + 1
+                run_silent(t, len(threads[t]))      # field reads and Value providers run right after, without events
+            else:
+                labels.append("LExitErr %d" % t)
+                dead[t] = True
+    for t in range(len(threads)):
+        if not dead[t]:
+            run_silent(t, len(threads[t]))
+    if not res["returned"]:
+        expect = 3
+    elif not res["err"]:
+        expect = 0
+    elif res["err"].startswith("prov:"):
+        fn = res["err"][5:]
+        if fn not in where:
+            return None
+        t, j = where[fn]
+        expect = 100 + threads[t][j]["pi"]
+    elif res["err"] == "canceled":
+        expect = 2
+    else:
+        return None
+    return labels, expect, res["leaked"] > 0
+
+
+def validate_traces(items, workdir):
+    """items: list of (tag, prog term, labels, expect, leak). Returns (n, failures [(tag, code)], log)"""
+    if not items:
+        return 0, [], ""
+    fails = []
+    log = ""
+    shards = [items[i:i + 150] for i in range(0, len(items), 150)]
+    def one(ix):
+        path = os.path.join(workdir, "traces_%d.v" % ix)
+        with open(path, "w") as f:
+            f.write("From Coq Require Import List Arith. Import ListNotations.\nRequire Import Sem2 Check.\n")
+            f.write("Definition cases : list (nat * (prog * list label * nat * bool)) := [\n" + ";\n".join(
+                "(%d, (%s, [%s], %d, %s))" % (i, it[1], "; ".join(it[2]), it[3], str(it[4]).lower()) for i, it in enumerate(shards[ix])) + "].\n")
+            f.write("Definition TR := Eval vm_compute in flat_map (fun c => let '(p, ls, ex, lk) := snd c in match trace_code p ls ex lk with 0 => [] | k => [(fst c, k)] end) cases.\nPrint TR.\n")
+        rc, out = vlib.coqc_file(path, timeout=900)
+        return ix, rc, out
+    with ThreadPoolExecutor(max_workers=8) as ex:
+        for ix, rc, out in ex.map(one, range(len(shards))):
+            m = re.search(r"TR\s*=\s*\[(.*?)\]\s*:\s*list \(nat \* nat\)", out, re.S)
+            if rc != 0 or not m:
+                log += out[-1500:]
+                fails.append(("shard-%d" % ix, -1))
+                continue
+            for a, b in re.findall(r"\((\d+),\s*(\d+)\)", m.group(1)):
+                fails.append((shards[ix][int(a)][0], int(b)))
+    return len(items), fails, log
+
+
 # ------------------------------------------------------------------ the stage
 
 def stage(seed, tier):
@@ -345,6 +436,7 @@ def _stage(seed, tier):
     nscen = 0
     kinds = {}
     samples = []
+    titems = []
     for pk in pk_names:
         scs, info = plans[pk]
         r = outs[pk]
@@ -372,10 +464,18 @@ def _stage(seed, tier):
             kinds[sc["kind"]] = kinds.get(sc["kind"], 0) + 1
             if len(samples) < 3 and sc["kind"] != "free":
                 samples.append(dict(scenario=sc, returned=res["returned"], value=res["value"], err=res["err"], events=[(e["kind"], e.get("fn", "")) for e in res["events"]][:12]))
+            if not ob.get("unparsed"):
+                try:
+                    tl = trace_labels(d, ob, res)
+                    if tl:
+                        titems.append((sc["id"] + "@" + pk, stage_s.obs_prog(d, ob)[0], tl[0], tl[1], tl[2]))
+                except Exception:
+                    pass
             for prop, verdict, detail in monitor(d, ob, facts, sc, res):
                 findings.append(dict(prop=prop, verdict=verdict, pkg=pk, inj=sc["inj"], detail=detail, scenario=sc,
                                      events=[(e["kind"], e.get("fn", ""), e.get("args")) for e in res["events"]]))
-    return dict(seed=seed, tier=tier, packages=len(pk_names), injectors=sum(len(plans[p][1]) for p in pk_names), scenarios=nscen,
+    ntr, tfails, tlog = validate_traces(titems, vlib.scratch())
+    return dict(traces_replayed=ntr, trace_failures=tfails[:50], trace_log=tlog[-1500:], seed=seed, tier=tier, packages=len(pk_names), injectors=sum(len(plans[p][1]) for p in pk_names), scenarios=nscen,
                 kinds=kinds, findings=findings, samples=samples, srcdir=S["srcdir"],
                 vet={pk: outs[pk]["vet"] for pk in pk_names})
 
@@ -384,6 +484,7 @@ if __name__ == "__main__":
     seed = int(os.environ.get("VERIF_SEED", "1"))
     r = stage(seed, sys.argv[1] if len(sys.argv) > 1 else "quick")
     print("packages", r["packages"], "injectors", r["injectors"], "scenarios", r["scenarios"], r["kinds"])
+    print("traces replayed", r["traces_replayed"], "failures", r["trace_failures"][:10], r["trace_log"][-500:])
     agg = {}
     for f in r["findings"]:
         agg.setdefault((f["prop"], f["verdict"]), []).append(f)
